@@ -118,6 +118,10 @@ def h_fit(flag_lines, nm, output_convolved, form):
                 v = C.fresh_real('vsel')
                 c.assume(v > 0)
                 sel = ('F', v)
+            elif form in ('C', 'E'):
+                v = C.fresh_real('vsel')         # absolute selectors: may keep no fit at all for a source
+                c.assume(v > 0)
+                sel = (form, v)
             elif form == 'N':
                 sel = ('N', 1)
             else:
@@ -310,6 +314,10 @@ def configs(tier, seed):
                                (((1, 4), (1, 0), (4, 4), (9, 9)), 'A', True), (((1, 1), (4, 4)), 'F', True)]):
         cfgs.append(Config('fit() lines=%s select=%s convolved=%s' % ('/'.join(''.join(map(str, f)) for f in lines), form, conv),
                            h_fit(lines, 2, conv, form), 3000))
+    # absolute selectors (a source may keep no fit at all: its record is still written)
+    for lines, form, conv in ([(((1, 4), (4, 4)), 'C', False)] if q else [(((1, 4), (4, 4)), 'C', False), (((1, 4), (4, 4)), 'E', True), (((1, 4), (1, 0), (4, 1)), 'C', True)]):
+        cfgs.append(Config('fit() one model lines=%s select=%s convolved=%s' % ('/'.join(''.join(map(str, f)) for f in lines), form, conv),
+                           h_fit(lines, 1, conv, form), 3000))
     for function in ('write_parameters', 'write_parameter_ranges', 'extract_parameters'):
         cfgs.append(Config('consumers %s' % function, h_consumers(function), 1500))
     return cfgs
